@@ -183,6 +183,28 @@ def main():
               e2["zs"] = [batch.zs(mn, mx, e2["bits"], e2["sym"]) for mn, mx in e2["ranges"]]
         run["tensors"].append(ent)
     runs.append(run)
+  # ---- C15: constants of DIFFERENT subgraphs that share one buffer AND one name (a tied table exported under one name): the
+  # quantizer's bookkeeping is keyed by tensor name, so such a model is either rejected or every referencing tensor must agree
+  # with the stored bytes - judged by the predicates on whatever is returned (no prediction: the specification's names are unique)
+  nsame = 0
+  if prop == "C15":
+    cross = [k for k in fams.get("shared_buffer_2sub", []) if len(dumps[k]["scn"]["subs"]) == 2 and
+             set(g for g in dumps[k]["scn"]["subs"][0].get("tbuf", []) if g) & set(g for g in dumps[k]["scn"]["subs"][1].get("tbuf", []) if g)]
+    for k in common.sample_keep(cross, 60 if args.tier == "quick" else 2000, args.seed):
+      scn = dumps[k]["scn"]
+      nsub = len(scn["subs"])
+      nf = lambda si, t, scn=scn, nsub=nsub: ("tied_g%d" % scn["subs"][si]["tbuf"][t]) if scn["subs"][si].get("tbuf", [0] * (t + 1))[t] else synth.tname(si, t, nsub)
+      try:
+        model, info = synth.build(scn, args.seed, const_fn=numeric.grid_const(np.random.default_rng(args.seed + nsame)), name_fn=nf)
+        if not policy_ok(scn, info["codes"]):
+          continue
+        impl = pipeline.run_impl(scn, seed=args.seed, model=model, info=info)
+      except (synth.Unrealisable, ValueError):
+        continue
+      nsame += 1
+      outcomes["same-name:" + impl["outcome"]] = outcomes.get("same-name:" + impl["outcome"], 0) + 1
+      if impl["outcome"] == "done":
+        drifted.append({"key": k + "/same-name", "scn": scn, "codes": info["codes"], "impl": impl})
   out1, r1 = batch.run("%s_zs" % prop)
   if r1 is not None and (r1.error or len(out1) != len(batch.vecs)):
     chk.machinery("QuantMathExt (zs) failed: %d of %d outputs: %s" % (len(out1), len(batch.vecs), r1.out[-500:]))
